@@ -4,6 +4,8 @@
      pkg/tmindex/cindex.go cindex.dat: written by close() only, read and then removed by init() (a crash leaves no snapshot);
                            onWrite/update widen the hull in memory;
                            syncChunks/lightFill give an unknown chunk the hull (first, last record)
+     pkg/pipe/ppipe.go     pipe<name>.dat (a pipe's position per source): rewritten in place by saveState after every batch;
+                           read by newPPipe (Init), which ignores a file that does not parse: the pipe has no position
      pkg/pipe/service.go   pipes.dat: written (persister.savePipes: WriteFile(pipes.dat.tmp), Rename over pipes.dat) by
                            CreatePipe / DeletePipe when the definitions changed and by Shutdown(); read by Init (a file
                            that does not parse: Init fails)
@@ -38,7 +40,10 @@ Record disk := mkDisk {
   d_cdat : option (fcontent snap);             (* cindex.dat *)
   d_pdat : option (fcontent (list nat));       (* pipes.dat: the pipe definitions *)
   d_jrnl : list (nat * (nat * list Z));        (* chunk files: partition -> (chunk id, flushed events) *)
-  d_next : nat                                 (* not a file: the next fresh chunk id (chunk.NewId is time based) *)
+  d_next : nat;                                (* not a file: the next fresh chunk id (chunk.NewId is time based) *)
+  d_prog : list (nat * fcontent nat)           (* pipes/pipe<name>.dat, one per forwarding pipe, keyed here by the pipe's
+                                                  destination partition: how many events of its source it has consumed.
+                                                  Rewritten IN PLACE after every batch (persister.savePipeInfo) *)
 }.
 
 (* the running server *)
@@ -47,7 +52,9 @@ Record mem := mkMem {
   m_buf : list (nat * list Z);                 (* acknowledged, still in a chunk writer's buffer *)
   m_hull : snap;                               (* cindex in memory *)
   m_pipes : list nat;
-  m_cur : list (nat * nat)                     (* partition -> id of the chunk being written *)
+  m_cur : list (nat * nat);                    (* partition -> id of the chunk being written *)
+  m_prog : list (nat * nat)                    (* ppipe.partitions: destination -> position in the source; no entry: the
+                                                  position is taken from the next write notification *)
 }.
 
 (* the repaired behaviours; the code is [code_fix], the code before the repairs [unrepaired] *)
@@ -55,12 +62,13 @@ Record fixes := mkFix { fx_sync : bool;       (* partition.Service.Shutdown sync
                         fx_atomic : bool;     (* tindex: write tindex.dat.tmp, then rename over tindex.dat *)
                         fx_pipes : bool;      (* pipes.dat saved (atomically) on every create / delete *)
                         fx_snap : bool;       (* cindex.dat is consumed (removed) by Init once it is loaded *)
-                        fx_drop : bool }.     (* deleteJournal removes the directory first, the tag-index record after it *)
-Definition code_fix : fixes := mkFix true true true true true.
-Definition unrepaired : fixes := mkFix false false false false false.
+                        fx_drop : bool;       (* deleteJournal removes the directory first, the tag-index record after it *)
+                        fx_prog : bool }.     (* not a repair: newPPipe ignores the error of loadPipeInfo (the code does) *)
+Definition code_fix : fixes := mkFix true true true true true true.
+Definition unrepaired : fixes := mkFix false false false false false true.
 
-Definition empty_disk : disk := mkDisk None None None None [] O.
-Definition empty_mem : mem := mkMem [] [] [] [] [].
+Definition empty_disk : disk := mkDisk None None None None [] O [].
+Definition empty_mem : mem := mkMem [] [] [] [] [] [].
 
 (* ---- association lists ---- *)
 Fixpoint lookup {A} (p : nat) (l : list (nat * A)) : option A :=
@@ -84,7 +92,7 @@ Definition widen (h : option hull) (ts : list Z) : option hull :=
 
 (* ---- tindex.saveStateUnsafe ---- *)
 Definition set_tindex (d : disk) (dat bak : option (fcontent (list nat))) : disk :=
-  mkDisk dat bak (d_cdat d) (d_pdat d) (d_jrnl d) (d_next d).
+  mkDisk dat bak (d_cdat d) (d_pdat d) (d_jrnl d) (d_next d) (d_prog d).
 (* the file-system effects of one save, in order *)
 Inductive teff := TRenameBak | TWrite (c : fcontent (list nat)) | TWriteTmpRename (c : fcontent (list nat)).
 Definition tsave_effs (fx : fixes) (d : disk) (m : list nat) : list teff :=
@@ -112,18 +120,18 @@ Inductive step := SWrite (p : nat) (ts : list Z) | SSync | SPipe (n : nat) | SDe
 Definition events_of (p : nat) (j : list (nat * (nat * list Z))) : list Z :=
   match lookup p j with Some (_, evs) => evs | None => [] end.
 Definition flush_all (m : mem) (d : disk) : mem * disk :=
-  (mkMem (m_parts m) [] (m_hull m) (m_pipes m) (m_cur m),
+  (mkMem (m_parts m) [] (m_hull m) (m_pipes m) (m_cur m) (m_prog m),
    mkDisk (d_tdat d) (d_tbak d) (d_cdat d) (d_pdat d)
           (fold_left (fun j pb => match lookup (fst pb) (m_cur m) with
                                   | Some cid => update (fst pb) (cid, events_of (fst pb) j ++ snd pb) j
                                   | None => j     (* unreachable: a buffer belongs to an open chunk *)
                                   end) (m_buf m) (d_jrnl d))
-          (d_next d)).
+          (d_next d) (d_prog d)).
 
 Definition save_pipes (d : disk) (l : list nat) : disk :=
-  mkDisk (d_tdat d) (d_tbak d) (d_cdat d) (Some (Whole l)) (d_jrnl d) (d_next d).
+  mkDisk (d_tdat d) (d_tbak d) (d_cdat d) (Some (Whole l)) (d_jrnl d) (d_next d) (d_prog d).
 Definition set_pipes (d : disk) (c : option (fcontent (list nat))) : disk :=
-  mkDisk (d_tdat d) (d_tbak d) (d_cdat d) c (d_jrnl d) (d_next d).
+  mkDisk (d_tdat d) (d_tbak d) (d_cdat d) c (d_jrnl d) (d_next d) (d_prog d).
 
 (* the states a crash inside persister.savePipes can leave: nothing yet / done; written in place also: torn at any k *)
 Inductive pcrash_at (fx : fixes) (d : disk) (l : list nat) : disk -> Prop :=
@@ -143,7 +151,7 @@ Definition drop_effs (fx : fixes) (p : nat) (parts : list nat) : list deff :=
   if fx_drop fx then [DRemoveDir p; DSaveIndex parts] else [DSaveIndex parts; DRemoveDir p].
 Definition dapply (fx : fixes) (e : deff) (d : disk) : disk :=
   match e with
-  | DRemoveDir p => mkDisk (d_tdat d) (d_tbak d) (d_cdat d) (d_pdat d) (remove_key p (d_jrnl d)) (d_next d)
+  | DRemoveDir p => mkDisk (d_tdat d) (d_tbak d) (d_cdat d) (d_pdat d) (remove_key p (d_jrnl d)) (d_next d) (d_prog d)
   | DSaveIndex parts => tsave fx d parts
   end.
 (* a crash between the effects (a crash inside the index save: [crash_at]) *)
@@ -162,11 +170,11 @@ Definition do_write (fx : fixes) (m : mem) (d : disk) (p : nat) (ts : list Z) : 
   let cid := match lookup p (m_cur m) with Some c => c | None => d_next d' end in
   let d'' := match lookup p (m_cur m) with
              | Some _ => d'
-             | None => mkDisk (d_tdat d') (d_tbak d') (d_cdat d') (d_pdat d') (d_jrnl d') (S (d_next d'))
+             | None => mkDisk (d_tdat d') (d_tbak d') (d_cdat d') (d_pdat d') (d_jrnl d') (S (d_next d')) (d_prog d')
              end in
   (mkMem parts (update p (get_list p (m_buf m) ++ ts) (m_buf m))
          (match widen (lookup cid (m_hull m)) ts with Some h => update cid h (m_hull m) | None => m_hull m end)
-         (m_pipes m) (update p cid (m_cur m)), d'').
+         (m_pipes m) (update p cid (m_cur m)) (m_prog m), d'').
 
 Definition do_step (fx : fixes) (md : mem * disk) (s : step) : mem * disk :=
   let '(m, d) := md in
@@ -176,26 +184,34 @@ Definition do_step (fx : fixes) (md : mem * disk) (s : step) : mem * disk :=
   | SPipe n =>
       if mem_nat n (m_pipes m) then (m, d)
       else let ps := m_pipes m ++ [n] in
-           (mkMem (m_parts m) (m_buf m) (m_hull m) ps (m_cur m), if fx_pipes fx then save_pipes d ps else d)
+           (mkMem (m_parts m) (m_buf m) (m_hull m) ps (m_cur m) (m_prog m), if fx_pipes fx then save_pipes d ps else d)
   | SDelPipe n =>
       if mem_nat n (m_pipes m) then
         let ps := filter (fun x => negb (Nat.eqb x n)) (m_pipes m) in
-        (mkMem (m_parts m) (m_buf m) (m_hull m) ps (m_cur m), if fx_pipes fx then save_pipes d ps else d)
+        (mkMem (m_parts m) (m_buf m) (m_hull m) ps (m_cur m) (m_prog m), if fx_pipes fx then save_pipes d ps else d)
       else (m, d)                                (* NotFound: nothing changes, nothing is saved *)
   | SDrop p =>
       (* TRUNCATE removes every chunk, then deleteJournal: the directory is removed and TIndex.Delete takes the record out
          and saves the index ([drop_effs]: in which order); what the chunk writer still buffered goes with it *)
       if mem_nat p (m_parts m) then
         let parts := filter (fun x => negb (Nat.eqb x p)) (m_parts m) in
-        (mkMem parts (remove_key p (m_buf m)) (m_hull m) (m_pipes m) (remove_key p (m_cur m)),
+        (mkMem parts (remove_key p (m_buf m)) (m_hull m) (m_pipes m) (remove_key p (m_cur m)) (m_prog m),
          fold_left (fun d e => dapply fx e d) (drop_effs fx p parts) d)
       else (m, d)
   | SDrain s t =>
-      (* the worker of a pipe from partition s to partition t has run (a write to s started or woke it) and caught up: it
-         writes to t - which registers t, even when there is nothing to forward - once and in order, the flushed events
-         of s it has not forwarded yet. Its progress is not a separate piece of state here: it stands after the last
-         event it wrote to t (the progress file pipe<name>.dat is saved with every batch forwarded) *)
-      if mem_nat s (m_parts m) then do_write fx m d t (skipn (length (acked m d t)) (events_of s (d_jrnl d))) else (m, d)
+      (* the worker of a pipe from partition s to partition t has run, started or woken by a write to s that is the only
+         buffered data of s (the round of the harness), and caught up. Its position: the one in memory; none (new pipe, or
+         the progress file was missing or did not parse at start): onWriteEvent takes the start of the notified write, i.e.
+         the pipe begins after what is flushed now and what lies before is never forwarded. It writes to t - which registers
+         t, even when there is nothing to forward - the flushed events of s from its position on, once and in order, and
+         saves the new position: in memory and, in place, in its progress file *)
+      if mem_nat s (m_parts m) then
+        let src := events_of s (d_jrnl d) in
+        let pos := match lookup t (m_prog m) with Some n => n | None => length src end in
+        let '(m1, d1) := do_write fx m d t (skipn pos src) in
+        (mkMem (m_parts m1) (m_buf m1) (m_hull m1) (m_pipes m1) (m_cur m1) (update t (length src) (m_prog m1)),
+         mkDisk (d_tdat d1) (d_tbak d1) (d_cdat d1) (d_pdat d1) (d_jrnl d1) (d_next d1) (update t (Whole (length src)) (d_prog d1)))
+      else (m, d)
   end.
 
 Definition run_steps (fx : fixes) (md : mem * disk) (l : list step) : mem * disk := fold_left (do_step fx) l md.
@@ -204,7 +220,7 @@ Definition run_steps (fx : fixes) (md : mem * disk) (l : list step) : mem * disk
 (* graceful: every Shutdown runs (pipes.dat, the journals are synced, cindex.dat); then exit *)
 Definition graceful (fx : fixes) (m : mem) (d : disk) : disk :=
   let '(m1, d1) := if fx_sync fx then flush_all m d else (m, d) in
-  mkDisk (d_tdat d1) (d_tbak d1) (Some (Whole (m_hull m1))) (Some (Whole (m_pipes m1))) (d_jrnl d1) (d_next d1).
+  mkDisk (d_tdat d1) (d_tbak d1) (Some (Whole (m_hull m1))) (Some (Whole (m_pipes m1))) (d_jrnl d1) (d_next d1) (d_prog d1).
 (* SIGKILL: nothing runs *)
 Definition killed (m : mem) (d : disk) : disk := d.
 
@@ -215,7 +231,8 @@ Inductive surgery :=
 | GTOrphan (p : nat)       (* partition drop, crash between its two effects (which one came first: [fx_drop]) *)
 | GCDrop | GCTorn (k : nat)
 | GCStale                  (* cindex.dat as the previous clean shutdown left it *)
-| GPTorn (k : nat) | GPDrop.
+| GPTorn (k : nat) | GPDrop
+| GProgTorn (t : nat) (k : nat).   (* a crash inside the in-place rewrite of the progress file of the pipe to t *)
 
 (* with the atomic savers the torn file is the .tmp one and there is no rename window: tindex.dat / pipes.dat stay whole.
    [GTTorn] after a stop is a start that dies inside the save ending Init; [GPTorn] at a session end that is not graceful
@@ -227,17 +244,21 @@ Definition apply_surgery (fx : fixes) (prev_cdat : option (fcontent snap)) (d : 
   | GTTorn k => if fx_atomic fx then d else
                 match d_tdat d with Some _ => set_tindex d (Some (Torn k)) (d_tdat d) | None => d end
   | GTOrphan p => if fx_drop fx then        (* the directory is gone, the record is still there *)
-                    mkDisk (d_tdat d) (d_tbak d) (d_cdat d) (d_pdat d) (remove_key p (d_jrnl d)) (d_next d)
+                    mkDisk (d_tdat d) (d_tbak d) (d_cdat d) (d_pdat d) (remove_key p (d_jrnl d)) (d_next d) (d_prog d)
                   else match d_tdat d with   (* the record is gone, the directory is still there *)
                   | Some (Whole m) => set_tindex d (Some (Whole (filter (fun x => negb (Nat.eqb x p)) m))) (d_tbak d)
                   | _ => d
                   end
-  | GCDrop => mkDisk (d_tdat d) (d_tbak d) None (d_pdat d) (d_jrnl d) (d_next d)
-  | GCTorn k => mkDisk (d_tdat d) (d_tbak d) (match d_cdat d with Some _ => Some (Torn k) | None => None end) (d_pdat d) (d_jrnl d) (d_next d)
-  | GCStale => mkDisk (d_tdat d) (d_tbak d) prev_cdat (d_pdat d) (d_jrnl d) (d_next d)
+  | GCDrop => mkDisk (d_tdat d) (d_tbak d) None (d_pdat d) (d_jrnl d) (d_next d) (d_prog d)
+  | GCTorn k => mkDisk (d_tdat d) (d_tbak d) (match d_cdat d with Some _ => Some (Torn k) | None => None end) (d_pdat d) (d_jrnl d) (d_next d) (d_prog d)
+  | GCStale => mkDisk (d_tdat d) (d_tbak d) prev_cdat (d_pdat d) (d_jrnl d) (d_next d) (d_prog d)
   | GPTorn k => if fx_pipes fx then d else
-                mkDisk (d_tdat d) (d_tbak d) (d_cdat d) (match d_pdat d with Some _ => Some (Torn k) | None => None end) (d_jrnl d) (d_next d)
-  | GPDrop => if fx_pipes fx then d else mkDisk (d_tdat d) (d_tbak d) (d_cdat d) None (d_jrnl d) (d_next d)
+                mkDisk (d_tdat d) (d_tbak d) (d_cdat d) (match d_pdat d with Some _ => Some (Torn k) | None => None end) (d_jrnl d) (d_next d) (d_prog d)
+  | GProgTorn t k => match lookup t (d_prog d) with
+                     | Some _ => mkDisk (d_tdat d) (d_tbak d) (d_cdat d) (d_pdat d) (d_jrnl d) (d_next d) (update t (Torn k) (d_prog d))
+                     | None => d
+                     end
+  | GPDrop => if fx_pipes fx then d else mkDisk (d_tdat d) (d_tbak d) (d_cdat d) None (d_jrnl d) (d_next d) (d_prog d)
   end.
 
 (* ---- start ---- *)
@@ -275,17 +296,27 @@ Definition light_fill (j : list (nat * (nat * list Z))) (s : snap) : snap :=
 Definition prune (j : list (nat * (nat * list Z))) (s : snap) : snap :=
   filter (fun ch => existsb (fun pe => Nat.eqb (fst (snd pe)) (fst ch)) j) s.
 
+(* newPPipe -> loadPipeInfo for every pipe: a progress file that does not parse gives an error, which newPPipe ignores:
+   the pipe has no position then. ([fx_prog] off: the error is returned and pipe.Service.Init fails) *)
+Definition prog_init (fx : fixes) (d : disk) : option (list (nat * nat)) :=
+  fold_right (fun tc acc => match acc, snd tc with
+                            | Some l, Whole n => Some ((fst tc, n) :: l)
+                            | Some l, Torn _ => if fx_prog fx then Some l else None
+                            | None, _ => None
+                            end) (Some []) (d_prog d).
+
 Definition start (fx : fixes) (d : disk) : option (mem * disk) :=
+  match prog_init fx d with None => None | Some prog =>
   match tindex_init d, pipes_init d with
   | Some parts, Some pipes =>
       (* chunk files nothing was ever flushed to are empty: the journal scan removes them *)
       let j := filter has_data (d_jrnl d) in
       (* the snapshot is consumed: cindex.init removes cindex.dat once the attempt to load it is over *)
-      let d0 := mkDisk (d_tdat d) (d_tbak d) (if fx_snap fx then None else d_cdat d) (d_pdat d) j (d_next d) in
-      Some (mkMem parts [] (light_fill j (prune j (cindex_init d))) pipes (map (fun pe => (fst pe, fst (snd pe))) j),
+      let d0 := mkDisk (d_tdat d) (d_tbak d) (if fx_snap fx then None else d_cdat d) (d_pdat d) j (d_next d) (d_prog d) in
+      Some (mkMem parts [] (light_fill j (prune j (cindex_init d))) pipes (map (fun pe => (fst pe, fst (snd pe))) j) prog,
             tsave fx d0 parts)           (* checkConsistency ends with saveStateUnsafe *)
   | _, _ => None
-  end.
+  end end.
 
 (* ---- what a client sees ---- *)
 (* RANGE [lo:hi] on a partition: the chunk is skipped when the index says its newest record is older than lo;
